@@ -175,9 +175,25 @@ PairApps(ty, ea, eb, va, vb, S) ==
 
 ---------------------------------------------------------------------------
 (* the laws of the property, on one pair *)
-BoolOf(op, x, y, S) == LET r == ApplyBin(op, x, y, S) IN r.sig = "ok" /\ r.v.k = "bool" /\ r.v.v
-OkBool(op, x, y, S) == LET r == ApplyBin(op, x, y, S) IN r.sig = "ok" /\ r.v.k = "bool"
-Law(c, name) == IF c THEN {} ELSE {name}     \* the law `name` holds iff c
+
+\* Negative control of the laws themselves: MC_Composite overrides Fault (CONSTANT Fault <- MCFault); with a fault the
+\* operators the LAWS see are deliberately wrong on tuples and NoLawViolated must fail.  The expected values that are
+\* emitted for replay never go through LawBin.
+Fault == "none"
+DropLast(v) == TupleV(SubSeq(v.es, 1, Len(v.es) - 1))
+LawBin(op, x, y, S) ==
+  IF Fault = "lt-first-only" /\ op = "<" /\ x.k = "tuple" /\ y.k = "tuple" /\ Len(x.es) > 1
+    THEN ApplyBin("<", x.es[1], y.es[1], S)
+  ELSE IF Fault = "eq-ignores-last" /\ op = "==" /\ x.k = "tuple" /\ y.k = "tuple" /\ Len(x.es) > 1
+    THEN ApplyBin("==", DropLast(x), DropLast(y), S)
+  ELSE IF Fault = "sub-swapped" /\ op = "-" /\ x.k = "tuple" /\ y.k = "tuple"
+    THEN ApplyBin("-", y, x, S)
+  ELSE ApplyBin(op, x, y, S)
+
+BoolOf(op, x, y, S) == LET r == LawBin(op, x, y, S) IN r.sig = "ok" /\ r.v.k = "bool" /\ r.v.v
+OkBool(op, x, y, S) == LET r == LawBin(op, x, y, S) IN r.sig = "ok" /\ r.v.k = "bool"
+\* one evaluated law: its name and whether it held (MC_Composite reports the names evaluated and requires ok of all)
+Law(c, name) == {[n |-> name, ok |-> c]}
 
 EqLaws(ea, eb, a, b, a2, S) ==
   LET eq == BoolOf("==", a, b, S) IN
@@ -202,7 +218,7 @@ TupleLaws(ty, a, b, S) ==
   LET n == Len(a.es)
       eqi(i) == BoolOf("==", a.es[i], b.es[i], S)
       lti(i) == BoolOf("<", a.es[i], b.es[i], S)
-      arith(op) == LET x == ApplyBin(op, a, b, S)
+      arith(op) == LET x == LawBin(op, a, b, S)
                        cs == [i \in 1..n |-> ApplyBin(op, a.es[i], b.es[i], S)] IN
                    IF \A i \in 1..n : cs[i].sig = "ok"
                    THEN x.sig = "ok" /\ x.v = TupleV([i \in 1..n |-> cs[i].v])
@@ -255,7 +271,7 @@ NegApp(ty, i) ==
    stuck |-> IsErr(v),
    item |-> [op |-> "neg", shape |-> Shape(ty), rel |-> "unary", form |-> "lit", e |-> Un("-", ea),
              want |-> IF IsErr(v) THEN NilV ELSE Render(v, r.s.heap, 8)],
-   laws |-> IF IsErr(v) THEN {"neg-total"}
+   laws |-> IF IsErr(v) THEN Law(FALSE, "neg-total")
             ELSE Law(back = r.v, "neg-involutive") \cup Law(~IsErr(sum) /\ IsZeroV(sum), "neg-is-additive-inverse")
                  \cup (IF r.v.k = "tuple"
                        THEN Law(v = TupleV([k \in 1..Len(r.v.es) |-> Negate(r.v.es[k])]), "neg-componentwise") ELSE {})]
